@@ -40,7 +40,7 @@ RULE = (
     "after every event, only at the end} x dtype; invariant per instantiated class: capability properties == methods "
     "the class defines, every product == dense, .H.mv == rmv, the class's own _rmv/_mm/_rmm/_fullmatrix is the one "
     "called.  distinct = distinct per-case observation tables; trivial = no product evaluated.")
-RULE_ADDED = 'Added later: operand batch (2,), every product also under torch.no_grad(). Round 4: leaf idv (identity whose _mv hands back its argument) and the operand-immutability oracle after every product. Round 6: fullmatrix results overwritten in place by the caller and asked for again; adjoint consistency (H.fullmatrix == fullmatrix^H, H.mv == rmv) inside uselinopparams after .H was evaluated.'
+RULE_ADDED = 'Added later: operand batch (2,), every product also under torch.no_grad(). Round 4: leaf idv (identity whose _mv hands back its argument) and the operand-immutability oracle after every product. Round 6: fullmatrix results overwritten in place by the caller and asked for again; adjoint consistency (H.fullmatrix == fullmatrix^H, H.mv == rmv) inside uselinopparams after .H was evaluated. Round 7: the left scalar factor is 0.3 (not representable in single precision) instead of 0.5.'
 ASSUMPTIONS = [
     "matrix entries are N(0,1) draws from a fixed generator stream (plane 0; thorough adds one plane derived from "
     "VERIF_SEED for the <= 2-leaf parts); sizes 2 and 3",
@@ -225,7 +225,7 @@ def build(t, leaves, dtype, g, cache):
         if t[0] == "mulm3":
             return op * (-3), D * (-3), A * 3
         if t[0] == "rmul":
-            return 0.5 * op, D * 0.5, A * 0.5
+            return 0.3 * op, D * 0.3, A * 0.3
         if t[0] == "gram":
             return (op.H.matmul(op, is_hermitian=True), D.transpose(-2, -1).conj() @ D,
                     A.transpose(-2, -1) @ A)
@@ -610,7 +610,7 @@ def build_nodense(t, leaves, dtype, g, cache):
     if len(t) == 2:
         op = build_nodense(t[1], leaves, dtype, g, cache)
         return {"H": lambda: op.H, "mul2": lambda: op * 2.0, "mulm3": lambda: op * (-3),
-                "rmul": lambda: 0.5 * op, "gram": lambda: op.H.matmul(op, is_hermitian=True)}[t[0]]()
+                "rmul": lambda: 0.3 * op, "gram": lambda: op.H.matmul(op, is_hermitian=True)}[t[0]]()
     a = build_nodense(t[1], leaves, dtype, g, cache)
     b = build_nodense(t[2], leaves, dtype, g, cache)
     return {"add": lambda: a + b, "sub": lambda: a - b, "matmul": lambda: a.matmul(b)}[t[0]]()
